@@ -106,7 +106,8 @@ for _n, _f in [("sum_dim", lambda a: a.sum(dim=-1)), ("sum_dims", lambda a: a.su
                ("logsumexp", lambda a: torch.logsumexp(a, dim=0)), ("cumsum", lambda a: a.cumsum(-1)), ("cumsum0", lambda a: a.cumsum(0)),
                ("cumprod", lambda a: a.cumprod(dim=-1)), ("cummax", lambda a: a.cummax(-1).values), ("cummin", lambda a: a.cummin(dim=0).values),
                ("diff", lambda a: a.diff(dim=-1)), ("topk", lambda a: a.topk(2, dim=-1).values), ("topk_smallest", lambda a: a.topk(1, dim=0, largest=False).values),
-               ("sort", lambda a: a.sort(dim=-1).values), ("sort_desc", lambda a: a.sort(dim=0, descending=True).values),
+               ("sort", lambda a: a.sort(dim=-1).values), ("kthvalue", lambda a: a.kthvalue(2, dim=-1).values),
+               ("kthvalue_keepdim", lambda a: a.kthvalue(1, dim=0, keepdim=True).values), ("sort_desc", lambda a: a.sort(dim=0, descending=True).values),
                ("quantile", lambda a: a.quantile(0.3, dim=-1)), ("quantile0", lambda a: a.quantile(0.0, dim=0)), ("quantile1", lambda a: a.quantile(1.0, dim=-1)),
                ("quantile_mid", lambda a: a.quantile(0.5, dim=0)), ("var", lambda a: a.var(dim=-1)), ("std", lambda a: a.std(dim=0)),
                ("getitem_last", lambda a: a[..., -1]), ("getitem_list", lambda a: a[..., [0]]), ("getitem_slice", lambda a: a[..., :-1]),
